@@ -198,6 +198,10 @@ def ks(keys):
     return ','.join(map(str, keys)) if keys else '-'
 
 
+SRC_BIN = {'gp', 'op', 'ip', 'lc', 'rc', 'sp', 'cp', 'acp', 'rp', 'add', 'sub'}
+SRC_UN = {'neg', 'reverse', 'involute', 'conjugate', 'hodge', 'unhodge'}
+
+
 class OpRun:
     """collects (protocol line, expected model output, oracle) triples for one check"""
     def __init__(self, ctx):
@@ -224,6 +228,10 @@ class OpRun:
         if model:
             self.lines.append(f'bin {op} {tok} {ks(kx)} {ks(ky)}')
             self.plan.append((case, canon_dict(zd)))
+            if op in SRC_BIN and alg.d <= 5 and all(0 <= k < 2 ** alg.d for k in list(kx) + list(ky)):
+                # the translated source of this generator on the same operands (validates translator + prelude)
+                self.lines.append(f'srcbin {op} {tok} {ks(kx)} {ks(ky)}')
+                self.plan.append(({**case, 'via': 'translated source'}, canon_dict(zd)))
         if oracle and op in REFBIN:
             exp = REFBIN[op](alg.signs, tracer_dict(kx, 0), tracer_dict(ky, 1000))
             if not dict_equal(zd, exp):
@@ -248,6 +256,9 @@ class OpRun:
         if model:
             self.lines.append(f'un {op} {tok} {ks(kx)}')
             self.plan.append((case, got))
+            if op in SRC_UN and alg.d <= 5 and len(set(kx)) == len(kx) and all(0 <= k < 2 ** alg.d for k in kx):
+                self.lines.append(f'srcun {op} {tok} {ks(kx)}')
+                self.plan.append(({**case, 'via': 'translated source'}, got))
         if oracle and op in REFUN and zd is not None:
             exp = REFUN[op](alg.signs, tracer_dict(kx, 0))
             if not dict_equal(zd, exp):
@@ -264,7 +275,7 @@ class OpRun:
             if exp != got:
                 nbad += 1
                 if nbad <= 8:
-                    ctx.mismatch('operator', case, got[:300], exp[:300])
+                    ctx.mismatch('translated-source' if case.get('via') else 'operator', case, got[:300], exp[:300])
                     if triage:
                         triage(case, got, exp)
         ctx.count('driver-lines', len(self.lines))
